@@ -53,6 +53,15 @@ Table  Python construct  ->  model term  (everything else is rejected: Translati
   _GoalConstraint(goal, lambda: goal.function(...)/goal.function_nominal, m, M, True)   result (m, M)
   if existing_constraint: constraint.update_bounds(existing_constraint, enforce=E)      hardMergeGen
   return constraint
+
+Second generator in this file: `gen_goal_code(c)` -> `lean/RtcVerif/Gen/GoalCode.lean` (C04 only): the goal
+validation (`_gp_validate_goals`), the target broadcasting (`_gp_min_max_arrays`), the soft-constraint and
+critical-goal construction inside `_gp_goal_constraints`, the `Goal` properties `has_target_*` / `is_empty`, and
+`bounds()` / `constant_inputs()` / `parameters()` of both goal-programming mixins.  The translators and their closed
+table *Python construct -> model term* are in `harness/c04_goalcode.py`; the generated definitions are proved equal
+to the code-level references of `Model/C04Code.lean` / `Model/C04Inputs.lean`, which `Proofs/C04Code.lean` /
+`Proofs/C04Inputs.lean` and the theorems `C04_*_code*` of `Props/C04.lean` connect to the model of the property
+theorems.
 """
 import ast
 import os
@@ -580,3 +589,326 @@ def gen_hard_constraint(c):
             f.write(text)
         os.replace(tmp, path)
     return [("RtcVerif.Gen.HardConstraint", "RtcVerif.Gen", thms)]
+
+
+# =================================================================================================
+# goal validation, target broadcasting, soft-constraint construction (C04)  ->  Gen/GoalCode.lean
+# (the translators and the closed table are in harness/c04_goalcode.py)
+
+GOALCODE_HEADER = """import RtcVerif.Model.C04Code
+import RtcVerif.Model.C04Inputs
+import Mathlib.Algebra.Order.Field.Rat
+import Mathlib.Tactic.Ring
+/-!
+GENERATED on every run of the C04 check by harness/translate_c04.py (`gen_goal_code`, translators in
+harness/c04_goalcode.py) from /repo/src/rtctools/optimization/goal_programming_mixin_base.py
+(`_gp_validate_goals`, `_gp_min_max_arrays`, the soft-constraint and critical-goal parts of `_gp_goal_constraints`,
+the `Goal` properties) and the `bounds()` / `constant_inputs()` / `parameters()` methods of goal_programming_mixin.py /
+single_pass_goal_programming_mixin.py.  Do not edit.
+The `*Gen` definitions are the source read through the table in harness/c04_goalcode.py; the theorems tie
+them to the code-level reference `Model/C04Code.lean`, which `Proofs/C04Code.lean` ties to the model the
+property theorems of C04 are about (`validate`, `Target.at`, `softRows`, `epsBounds`).
+-/
+set_option linter.unusedVariables false
+set_option linter.unreachableTactic false
+set_option linter.unusedTactic false
+namespace RtcVerif.Gen
+open RtcVerif RtcVerif.C04
+"""
+
+
+def _bool_tactic(defs, atoms):
+    """`rfl`, or: unfold, abstract every atomic condition to a Boolean and split on the Booleans one after
+    the other (closing a branch by `rfl` as soon as both sides agree)"""
+    lines = ["  first", "  | rfl", "  | (simp only [%s]; done)" % ", ".join(defs), "  | (simp only [%s]" % ", ".join(defs)]
+    names = []
+    for k, a in enumerate(atoms):
+        lines.append("     try generalize %s = a%d" % (a, k))
+        names.append("a%d" % k)
+    tac = "rfl"
+    for nm in reversed(names):
+        tac = "first | rfl | (cases %s <;> (%s))" % (nm, tac)
+    lines.append("     " + tac + ")")
+    return "\n".join(lines)
+
+
+def goal_code_text():
+    """the generated Lean source and the list of theorem names; raises TranslationError"""
+    from . import c04_goalcode as G
+
+    parts, thms = [GOALCODE_HEADER], []
+    # ---------------------------------------------------------------- (1) validation
+    try:
+        v = G.translate_validate()
+    except TranslationError as e:
+        raise TranslationError("_gp_validate_goals: %s" % e)
+    parts.append("\n/-! ## `_gp_validate_goals` -/\n")
+    for name, sig, args, key, ref in (
+            ("valLoop1Gen", "(o : Opts) (isPath : Bool) (g : Goal)", "o isPath g", "loop1", "checkDefRef"),
+            ("valMonoGen", "(nSteps : Nat) (g prev : Goal)", "nSteps g prev", "mono", "checkMonoRef"),
+            ("valLoop3Gen", "(nSteps : Nat) (g : Goal)", "nSteps g", "loop3", "checkTargetsRef")):
+        parts.append("\ndef %s %s : Option Err :=\n  %s\n" % (name, sig, v[key]))
+        parts.append("\ntheorem %s_eq_ref %s : %s %s = C04.%s %s := by\n%s\n"
+                     % (name, sig, name, args, ref, args, _bool_tactic([name, "C04." + ref], v[key + "_atoms"])))
+        thms.append(name + "_eq_ref")
+    entries = {"loop1": "firstOf (valLoop1Gen o isPath) gs",
+               "mono": "(if o.checkMonotonicity then monoWalkWith (valMonoGen nSteps) [] gs else none)",
+               "loop3": "firstOf (valLoop3Gen nSteps) gs"}
+    parts.append("""
+/-- the whole method: stable priority sort, then the checks in source order -/
+def validateGen (o : Opts) (isPath : Bool) (nTimes : Nat) (goals : List Goal) : Option Err :=
+  let gs := sortByPriority goals
+  let nSteps := if isPath then nTimes else 1
+  firstErr [%s]
+
+theorem validateGen_eq_ref (o : Opts) (isPath : Bool) (nTimes : Nat) (goals : List Goal) :
+    validateGen o isPath nTimes goals = C04.validateRef o isPath nTimes goals := by
+  have h1 : valLoop1Gen = C04.checkDefRef := by funext o isPath g; exact valLoop1Gen_eq_ref o isPath g
+  have h2 : valMonoGen = C04.checkMonoRef := by funext n g p; exact valMonoGen_eq_ref n g p
+  have h3 : valLoop3Gen = C04.checkTargetsRef := by funext n g; exact valLoop3Gen_eq_ref n g
+  simp only [validateGen, C04.validateRef, h1, h2, h3]
+""" % ",\n    ".join(entries[k] for k in v["order"]))
+    thms.append("validateGen_eq_ref")
+    # ---------------------------------------------------------------- (2) target broadcasting
+    try:
+        table, fills, hyps = G.translate_min_max()
+    except TranslationError as e:
+        raise TranslationError("_gp_min_max_arrays: %s" % e)
+    parts.append("\n/-! ## `_gp_min_max_arrays`  (`none` = the shape assertion of the method fails for this combination;\n"
+                 "hypotheses on the goal recorded by the translator: %s) -/\n" % "; ".join(sorted(hyps)))
+    for side, name, ref in (("tmin", "minArrGen", "minArrRef"), ("tmax", "maxArrGen", "maxArrRef")):
+        other = "tmax" if side == "tmin" else "tmin"
+
+        def sel(kind):
+            def o(path, gt1, k_other=None):
+                t = table[(side, kind, path, gt1)]
+                if isinstance(t, dict):
+                    t = t[k_other]
+                return "none" if t is None else "some %s" % t
+
+            def four(k_other=None):
+                a, b, c_, d = o(True, True, k_other), o(True, False, k_other), o(False, True, k_other), o(False, False, k_other)
+                return "if path then (if gt1 then %s else %s) else (if gt1 then %s else %s)" % (a, b, c_, d)
+            if not any(isinstance(table[(side, kind, p_, g_)], dict) for p_ in (True, False) for g_ in (True, False)):
+                return four()
+            # the array of this side depends on the kind of the OTHER target: keep the full table
+            return ("(match %s with | .scalar _ => %s | .vector _ => %s | .series [_] => %s | .series _ => %s)"
+                    % (other, four("scalar"), four("vector"), four("series1"), four("series2")))
+        parts.append("""
+def %(name)s (path gt1 : Bool) (tmin tmax : Target) (c i : Nat) : Option XVal :=
+  match %(side)s with
+  | .scalar _ => %(s)s
+  | .vector _ => %(v)s
+  | .series [_] => %(s1)s
+  | .series _ => %(s2)s
+
+theorem %(name)s_eq_ref (path gt1 : Bool) (tmin tmax : Target) (c i : Nat) :
+    %(name)s path gt1 tmin tmax c i = C04.%(ref)s path gt1 tmin tmax c i := by
+  first
+  | rfl
+  | (unfold %(name)s C04.%(ref)s; cases path <;> cases gt1 <;> rfl)
+  | (unfold %(name)s C04.%(ref)s; split <;> cases path <;> cases gt1 <;> rfl)
+""" % dict(name=name, side=side, ref=ref, s=sel("scalar"), v=sel("vector"), s1=sel("series1"), s2=sel("series2")))
+        thms.append(name + "_eq_ref")
+        fl = fills.get(side)
+        if not fl or len(fl) != 1:
+            raise TranslationError("_gp_min_max_arrays: fill values of the %s interpolation not understood" % side)
+        (fl,) = fl
+        fname = "minFillGen" if side == "tmin" else "maxFillGen"
+        parts.append("\n/-- left / right fill of the interpolation of a Timeseries target onto the grid -/\n"
+                     "def %s : XVal × XVal := (%s, %s)\n\ntheorem %s_eq_ref : %s = C04.%s := by rfl\n"
+                     % (fname, fl[0], fl[1], fname, fname, fname.replace("Gen", "Ref")))
+        thms.append(fname + "_eq_ref")
+    # ---------------------------------------------------------------- (3) soft constraints
+    try:
+        s = G.translate_soft()
+        eb = [G.translate_eps_bounds(G.MIXIN, "GoalProgrammingMixin"),
+              G.translate_eps_bounds(G.SPMIXIN, "SinglePassGoalProgrammingMixin")]
+    except TranslationError as e:
+        raise TranslationError("_gp_goal_constraints (soft constraints): %s" % e)
+    parts.append("\n/-! ## soft constraints of `_gp_goal_constraints` -/\n")
+    for side, cname, kname, cref, kref in (("tmin", "minConstGen", "keepMinGen", "minConstRef", "keepMinRef"),
+                                           ("tmax", "maxConstGen", "keepMaxGen", "maxConstRef", "keepMaxRef")):
+        r = s[side]
+        parts.append("""
+/-- the constant registered for the target (parameter / constant input) at (component, step) -/
+def %(cname)s (g : Goal) (c i : Nat) : XVal :=
+  match g.%(side)s with
+  | .series _ => %(cs)s
+  | .vector _ => %(cv)s
+  | .scalar _ => %(cc)s
+
+theorem %(cname)s_eq_ref (g : Goal) (c i : Nat) : %(cname)s g c i = C04.%(cref)s g c i := by
+  first
+  | rfl
+  | (unfold %(cname)s C04.%(cref)s; split <;> rfl)
+
+/-- slice indices: is component `c` kept in the soft constraint of this side? -/
+def %(kname)s (g : Goal) (n c : Nat) : Bool :=
+  match g.%(side)s with
+  | .series _ => %(ks)s
+  | .vector _ => %(kv)s
+  | .scalar _ => %(kc)s
+
+theorem %(kname)s_eq_ref (g : Goal) (n c : Nat) : %(kname)s g n c = C04.%(kref)s g n c := by
+  first
+  | rfl
+  | (unfold %(kname)s C04.%(kref)s; split <;> rfl)
+""" % dict(cname=cname, kname=kname, cref=cref, kref=kref, side=side,
+           cs=r["series"][0], cv=r["vector"][0], cc=r["scalar"][0],
+           ks=r["series"][1], kv=r["vector"][1], kc=r["scalar"][1]))
+        thms += [cname + "_eq_ref", kname + "_eq_ref"]
+    parts.append("""
+/-- `_soft_constraint_func`: the expression of one component at one step -/
+def softExprGen (target : XVal) (f eps bound nom : Rat) : Rat :=
+  %s
+
+theorem softExprGen_eq_ref (target : XVal) (f eps bound nom : Rat) :
+    softExprGen target f eps bound nom = C04.softExprRef target f eps bound nom := by
+  first
+  | rfl
+  | (unfold softExprGen C04.softExprRef ifAbsLt; split <;> (try split) <;> first | rfl | ring)
+""" % s["softExpr"])
+    thms.append("softExprGen_eq_ref")
+    # the rows: one block per `if goal.has_target_X and np.any(inds): ... append`
+    consts = {"min_variable": "minConstGen", "max_variable": "maxConstGen"}
+    keeps = {"target_min_slice_inds": "keepMinGen", "target_max_slice_inds": "keepMaxGen"}
+    flags = {"has_target_min": "g.hasMin", "has_target_max": "g.hasMax"}
+    blocks = []
+    for sd in s["sides"]:
+        if sd["target"] not in consts or sd["inds"] not in keeps or sd["guard_inds"] not in keeps:
+            raise TranslationError("soft rows: unknown target constant / slice indices")
+        blocks.append(
+            "(if %s && (List.range g.size).any (%s g n) then\n"
+            "      ((List.range g.size).filter (%s g n)).flatMap fun c => (List.range n).map fun i =>\n"
+            "        rowWith (g.%sAt c) (fun bound => softExprGen (%s g c i) (getF fs c i) (getF eps c i) bound (g.nomAt c)) %s %s\n"
+            "    else [])"
+            % (flags[sd["flag"]], keeps[sd["guard_inds"]], keeps[sd["inds"]], "lo" if sd["bound"] == 0 else "hi",
+               consts[sd["target"]], sd["lb"], sd["ub"]))
+    parts.append("""
+/-- the soft-constraint rows of one non-critical target goal for one member, in source order -/
+def softRowsGen (g : Goal) (n : Nat) (fs eps : List (List Rat)) : List Row :=
+  %s
+
+theorem softRowsGen_eq_ref (g : Goal) (n : Nat) (fs eps : List (List Rat)) :
+    softRowsGen g n fs eps = C04.softRowsRef g n fs eps := by
+  have h1 : minConstGen = C04.minConstRef := by funext g c i; exact minConstGen_eq_ref g c i
+  have h2 : maxConstGen = C04.maxConstRef := by funext g c i; exact maxConstGen_eq_ref g c i
+  have h3 : keepMinGen = C04.keepMinRef := by funext g n c; exact keepMinGen_eq_ref g n c
+  have h4 : keepMaxGen = C04.keepMaxRef := by funext g n c; exact keepMaxGen_eq_ref g n c
+  have h5 : softExprGen = C04.softExprRef := by funext t f e b m; exact softExprGen_eq_ref t f e b m
+  simp only [softRowsGen, C04.softRowsRef, h1, h2, h3, h4, h5]
+""" % " ++\n  ".join(blocks or ["[]"]))
+    thms.append("softRowsGen_eq_ref")
+    parts.append("""
+/-- `n_active` of a target goal (divisor of its objective term), component `c` -/
+def nActiveGen (g : Goal) (isPath scale : Bool) (n c : Nat) : Nat :=
+  %s
+
+theorem nActiveGen_eq_ref (g : Goal) (isPath scale : Bool) (n c : Nat) :
+    nActiveGen g isPath scale n c = C04.nActiveRef g isPath scale n c := by
+  first
+  | rfl
+  | (unfold nActiveGen C04.nActiveRef; cases isPath <;> cases scale <;> rfl)
+
+/-- number of entries of the violation variable `ca.MX.sym(eps_..., goal.size)` -/
+def epsSizeGen (g : Goal) : Nat := %s
+
+theorem epsSizeGen_eq_ref (g : Goal) : epsSizeGen g = C04.epsSizeRef g := by rfl
+
+/-- `bounds()` of GoalProgrammingMixin / SinglePassGoalProgrammingMixin: the entry written for every
+    violation variable the class exposes through `extra_variables` / `path_variables` -/
+def epsBoundsGen : Rat × Rat := %s
+def epsBoundsSinglePassGen : Rat × Rat := %s
+
+theorem epsBoundsGen_eq_model : epsBoundsGen = C04.epsBounds ∧ epsBoundsSinglePassGen = C04.epsBounds := by
+  constructor <;> rfl
+""" % (s["nActive"], s["epsSize"], eb[0], eb[1]))
+    thms += ["nActiveGen_eq_ref", "epsSizeGen_eq_ref", "epsBoundsGen_eq_model"]
+    # ---------------------------------------------------------------- critical goals; Goal properties
+    try:
+        cc = G.translate_crit_calls()
+        gp = G.translate_goal_props()
+    except TranslationError as e:
+        raise TranslationError("critical-goal loop / Goal properties: %s" % e)
+    parts.append("""
+/-! ## critical goals in `_gp_goal_constraints`; the `Goal` properties the mixin branches on -/
+
+/-- per member: (slot in `hard_constraints`, member handed to `_gp_goal_hard_constraint`, entry of `epsilon`,
+    length of `epsilon`, the existing constraint handed over is `None`) -/
+def critCallsGen (E : Nat) (isPath : Bool) (nTimes : Nat) : List (Nat × Nat × Rat × Nat × Bool) :=
+  %s
+
+theorem critCallsGen_eq_ref (E : Nat) (isPath : Bool) (nTimes : Nat) :
+    critCallsGen E isPath nTimes = C04.critCallsRef E isPath nTimes := by
+  first
+  | rfl
+  | (unfold critCallsGen C04.critCallsRef; cases isPath <;> rfl)
+""" % cc)
+    thms.append("critCallsGen_eq_ref")
+    atoms = ["g.tmin.isSeries", "g.tmin.anyFinite", "g.tmax.isSeries", "g.tmax.anyFinite", "g.hasMin", "g.hasMax"]
+    for key, name, ref in (("has_target_min", "hasMinGen", "hasMinRef"), ("has_target_max", "hasMaxGen", "hasMaxRef"),
+                           ("has_target_bounds", "hasTargetBoundsGen", "hasTargetBoundsRef"), ("is_empty", "isEmptyGen", "isEmptyRef")):
+        parts.append("\n/-- `Goal.%s` -/\ndef %s (g : Goal) : Bool :=\n  %s\n" % (key, name, gp[key]))
+        parts.append("\ntheorem %s_eq_ref (g : Goal) : %s g = C04.%s g := by\n%s\n"
+                     % (name, name, ref, _bool_tactic([name, "C04." + ref], atoms)))
+        thms.append(name + "_eq_ref")
+    # ---------------------------------------------------------------- constant_inputs() / parameters()
+    parts.append("""
+/-! ## `constant_inputs()` / `parameters()` of the goal-programming mixins: how the registered target constants
+reach the problem (`d` = the dictionary `super()` returns, `origKeys` = this member's remembered keys) -/
+""")
+    for cls, path, pre in (("GoalProgrammingMixin", G.MIXIN, "gp"), ("SinglePassGoalProgrammingMixin", G.SPMIXIN, "sp")):
+        for meth, mname in (("constant_inputs", "ConstInputs"), ("parameters", "Parameters")):
+            try:
+                term, remember, conv_text = G.translate_inputs_method(path, cls, meth)
+            except TranslationError as e:
+                raise TranslationError("%s.%s: %s" % (cls, meth, e))
+            name = pre + mname + "Gen"
+            hconv = ""
+            if conv_text is not None:
+                cname = pre + "ConstConvGen"
+                parts.append("\ndef %s (n : Nat) (t : Target) : Target :=\n  %s\n\ntheorem %s_eq_ref (n : Nat) (t : Target) : "
+                             "%s n t = C04.constConv n t := by\n  cases t <;> rfl\n" % (cname, conv_text, cname, cname))
+                thms.append(cname + "_eq_ref")
+                term = term.replace("CONV", cname)
+                hconv = "  have h : %s n = C04.constConv n := funext (%s_eq_ref n)\n" % (cname, cname)
+                refconv = "(C04.constConv n)"
+            else:
+                refconv = "id"
+            if remember:
+                sig = "(origKeys : Option (List String)) (d : Dict Target) (sub prob : List (String × Target)) (n : Nat)"
+                ty = "List String × Dict Target"
+                call = "%s origKeys d sub prob n" % name
+                ref = "C04.inputsCallRef %s true origKeys d (sub ++ prob)" % refconv
+            else:
+                sig = "(d : Dict Target) (prob : List (String × Target)) (n : Nat)"
+                ty = "Dict Target"
+                call = "%s d prob n" % name
+                ref = "(C04.inputsCallRef %s false none d prob).2" % refconv
+            parts.append("\n/-- `%s.%s` -/\ndef %s %s : %s :=\n  %s\n" % (cls, meth, name, sig, ty, term))
+            parts.append("\ntheorem %s_eq_ref %s :\n    %s = %s := by\n%s  first\n  | rfl\n  | (simp only [%s, C04.inputsCallRef%s]; done)\n"
+                         "  | (simp only [%s, C04.inputsCallRef%s]; rfl)\n"
+                         % (name, sig, call, ref, hconv, name, ", h" if hconv else "", name, ", h" if hconv else ""))
+            thms.append(name + "_eq_ref")
+    parts.append("\nend RtcVerif.Gen\n")
+    return "".join(parts), thms
+
+
+def gen_goal_code(c):
+    """(re)generate lean/RtcVerif/Gen/GoalCode.lean; returns the extra obligation spec for c.prove"""
+    gdir = os.path.join(LEAN_DIR, "RtcVerif", "Gen")
+    os.makedirs(gdir, exist_ok=True)
+    path = os.path.join(gdir, "GoalCode.lean")
+    try:
+        text, thms = goal_code_text()
+    except TranslationError as e:
+        c.broken.append(("translator: goal validation / soft constraints", str(e)))
+        return []
+    old = open(path).read() if os.path.exists(path) else None
+    if old != text:
+        tmp = path + ".tmp%d" % os.getpid()
+        with open(tmp, "w") as f:
+            f.write(text)
+        os.replace(tmp, path)
+    return [("RtcVerif.Gen.GoalCode", "RtcVerif.Gen", thms)]
